@@ -152,8 +152,12 @@ def run_check(prop, tier, seed, workers, batches=None, runs=None, do_minimise=Tr
     scratch = orch.scratch_dir()
     try:
         jobs = batch_jobs(prop, tier, seed, batches, runs)
-        reports = orch.run_jobs(jobs, workers, 3600 if tier == 'quick' else 6 * 3600, scratch)
+        # determinism probe: the first 20 runs of batch 0 are executed a second time in another fresh interpreter
+        dup = dict(jobs[0], count=min(20, jobs[0]['count']))
+        reports = orch.run_jobs(jobs + [dup], workers, 3600 if tier == 'quick' else 6 * 3600, scratch)
+        dup_rep = reports.pop()
         agg = aggregate(prop, reports)
+        agg['determinism'] = determinism_probe(reports[0], dup_rep)
         lines = []
         replays = []
         classes = {}
@@ -179,6 +183,14 @@ def run_check(prop, tier, seed, workers, batches=None, runs=None, do_minimise=Tr
         return agg, lines, classes
     finally:
         orch.cleanup(scratch)
+
+
+def determinism_probe(first, dup):
+    a = dict((i, d) for i, d in first['digests'])
+    bad = [i for i, d in dup['digests'] if a.get(i) != d]
+    if bad and not first['violations']:
+        raise HarnessError('determinism probe failed: run seeds %r gave different event logs in two fresh interpreters' % bad[:5])
+    return {'seeds_run_twice': len(dup['digests']), 'mismatches': len(bad)}
 
 
 def aggregate(prop, reports):
@@ -235,6 +247,8 @@ def write_ev(prop, tier, seed, agg, wall, nviol, jobs, reports):
                                 'regex', 'cultures: ' + ','.join(agg['cultures'] or [])],
                        'stub': ['wall clock (SimDateTime seam)', 'datedelta (%s)' % (agg['stubs'] or {}).get('datedelta'), 'discrete-event timeline']},
         'what': TITLES[prop],
+        'determinism_selftest': agg.get('determinism'),
+        'seeds_per_hour': int(agg['runs'] / max(wall, 1e-6) * 3600),
     }
     assumptions = ['the library reads the wall clock only through datetime.now()/today()/utcnow() of the class bound at import (verified: 0 other clock sources in an AST scan of the tree)',
                    'value oracles are reference models written from the property statement with datetime.date only; expression and layout tables are static data committed under /verif/data']
